@@ -289,6 +289,9 @@ func (a *asyncRun) step() {
 			n.AdvanceLedger(b)
 		}
 		a.setupPool(n)
+		if rng.Intn(100) < 35 {
+			n.Cfg.Watch = true // the operator brings the validator back as an observer: same key, watch-only flag set
+		}
 		c.Emit(n.Restart())
 	case 6: // new transaction notification
 		n := pick(rng, c.Nodes)
